@@ -91,9 +91,41 @@ Proof.
   - intros q Hq. unfold is_file. cbn [fs_files]. rewrite lookup_app_other, lookup_remove_other; auto.
 Qed.
 
+Definition same_tree (a c : fsys) : Prop :=
+  fs_files a = fs_files c /\ fs_dirs a = fs_dirs c /\ fs_log a = fs_log c.
+
+Lemma same_tree_set_fault fs f b : same_tree (set_fault fs f b) fs.
+Proof. unfold same_tree, set_fault. cbn. auto. Qed.
+
+Lemma same_tree_refl fs : same_tree fs fs.
+Proof. unfold same_tree. auto. Qed.
+
+Lemma same_tree_is_file a c p : same_tree a c -> is_file a p = is_file c p.
+Proof. intros (H & _ & _). unfold is_file. rewrite H. reflexivity. Qed.
+
+Lemma step_ok_same p fs fs0 : same_tree fs0 fs -> step_ok p fs fs0.
+Proof.
+  intros H. split.
+  - exists []. rewrite app_nil_r. split; [apply H|intros op []].
+  - intros q _. apply same_tree_is_file. assumption.
+Qed.
+
+(* an output operation under the fault oracle: it ran on the same tree and succeeded, ran and failed, or
+   was made to fail *)
 Lemma mop_cases (op : fsys -> fsys + fserr) on_err fs fs' r : mop op on_err fs = (fs', r) ->
-  (exists fs1, op fs = inl fs1 /\ fs' = fs1 /\ r = ROk tt) \/ (exists e, op fs = inr e /\ fs' = fs /\ r = on_err e).
-Proof. unfold mop. destruct (op fs) as [fs1|e]; intros [= <- <-]; [left|right]; eauto. Qed.
+  (exists fs0 fs1, same_tree fs0 fs /\ op fs0 = inl fs1 /\ fs' = fs1 /\ r = ROk tt) \/
+  (exists fs0 e, same_tree fs0 fs /\ op fs0 = inr e /\ fs' = fs0 /\ r = on_err e) \/
+  (same_tree fs' fs /\ r = on_err FsOther).
+Proof.
+  unfold mop. destruct (fs_fault fs) as [[|k]|].
+  - intros [= <- <-]. right. right. split; [apply same_tree_set_fault|reflexivity].
+  - destruct (op _) as [fs1|e] eqn:E; intros [= <- <-].
+    + left. eexists _, _. split; [apply same_tree_set_fault|]. eauto.
+    + right. left. eexists _, _. split; [apply same_tree_set_fault|]. eauto.
+  - destruct (op fs) as [fs1|e] eqn:E; intros [= <- <-].
+    + left. exists fs, fs1. split; [apply same_tree_refl|]. auto.
+    + right. left. exists fs, e. split; [apply same_tree_refl|]. auto.
+Qed.
 
 (* save_modified_file: a file that was loaded as existing is unlinked first; one that was not must not
    be there (nobody else writes); then the only create is of a new entry *)
@@ -106,9 +138,12 @@ Proof.
   destruct ((if existed m then mop (fun fs => fs_remove_file fs p) _ else mret tt) fs) as [fs1 r1] eqn:E1.
   assert (H1 : step_ok p fs fs1 /\ (r1 = ROk tt -> is_file fs1 p = false)).
   { destruct (existed m).
-    - apply mop_cases in E1. destruct E1 as [(x & Hop & -> & ->)|(e & Hop & -> & ->)].
-      + destruct (remove_file_ok _ _ _ Hop). auto.
-      + split; [apply step_ok_refl|]. destruct e; [intros _; eapply remove_file_notfound; eassumption|discriminate].
+    - apply mop_cases in E1. destruct E1 as [(fs0 & x & Hs & Hop & -> & ->)|[(fs0 & e & Hs & Hop & -> & ->)|(Hs & ->)]].
+      + destruct (remove_file_ok _ _ _ Hop) as [S F]. split; [|intros _; exact F].
+        eapply step_ok_trans; [apply step_ok_same; exact Hs|exact S].
+      + split; [apply step_ok_same; exact Hs|]. destruct e; [|discriminate].
+        intros _. eapply remove_file_notfound. eassumption.
+      + split; [apply step_ok_same; exact Hs|discriminate].
     - injection E1 as <- <-. split; [apply step_ok_refl|]. intros _. apply Hpre. reflexivity. }
   destruct H1 as [S1 F1]. destruct r1 as [[]|e1|]; [|intros [= <- _]; exact S1|intros [= <- _]; exact S1].
   specialize (F1 eq_refl).
@@ -117,15 +152,21 @@ Proof.
   assert (H2 : step_ok p fs1 fs2 /\ is_file fs2 p = false).
   { destruct (existed m).
     - injection E2 as <- <-. split; [apply step_ok_refl|assumption].
-    - apply mop_cases in E2. destruct E2 as [(x & Hop & -> & ->)|(e & Hop & -> & ->)].
-      + destruct (create_dir_all_ok _ _ _ p Hop) as [S Hf]. split; [assumption|]. rewrite Hf. assumption.
-      + split; [apply step_ok_refl|assumption]. }
+    - apply mop_cases in E2. destruct E2 as [(fs0 & x & Hs & Hop & -> & ->)|[(fs0 & e & Hs & Hop & -> & ->)|(Hs & ->)]].
+      + destruct (create_dir_all_ok _ _ _ p Hop) as [S Hf]. split.
+        * eapply step_ok_trans; [apply step_ok_same; exact Hs|exact S].
+        * rewrite Hf, (same_tree_is_file _ _ _ Hs). assumption.
+      + split; [apply step_ok_same; exact Hs|]. rewrite (same_tree_is_file _ _ _ Hs). assumption.
+      + split; [apply step_ok_same; exact Hs|]. rewrite (same_tree_is_file _ _ _ Hs). assumption. }
   destruct H2 as [S2 F2]. pose proof (step_ok_trans _ _ _ _ S1 S2) as S12.
   destruct r2 as [[]|e2|]; [|intros [= <- _]; exact S12|intros [= <- _]; exact S12].
   destruct (mop (fun fs => fs_create dm fs p (perm m) (concat_lines (content m))) _ fs2) as [fs3 r3] eqn:E3.
-  apply mop_cases in E3. destruct E3 as [(x & Hop & -> & ->)|(e & Hop & -> & ->)].
-  - intros [= <- _]. eapply step_ok_trans; [exact S12|]. eapply create_ok; eassumption.
-  - intros [= <- _]. exact S12.
+  apply mop_cases in E3. destruct E3 as [(fs0 & x & Hs & Hop & -> & ->)|[(fs0 & e & Hs & Hop & -> & ->)|(Hs & ->)]].
+  - intros [= <- _]. eapply step_ok_trans; [exact S12|].
+    eapply step_ok_trans; [apply step_ok_same; exact Hs|]. eapply create_ok; [eassumption|].
+    rewrite (same_tree_is_file _ _ _ Hs). assumption.
+  - intros [= <- _]. eapply step_ok_trans; [exact S12|apply step_ok_same; exact Hs].
+  - intros [= <- _]. eapply step_ok_trans; [exact S12|apply step_ok_same; exact Hs].
 Qed.
 
 (* the whole overlay: different names are different files (no two names for one file), each file not
